@@ -34,6 +34,9 @@ type JSON struct {
 }
 
 func (t JSON) String() string {
+	if t.Omit {
+		return "-"
+	}
 	var tag string
 	if !t.Inline {
 		tag += t.Name
@@ -43,6 +46,10 @@ func (t JSON) String() string {
 	}
 	if t.Inline {
 		tag += ",inline"
+	}
+	if tag == "-" {
+		// A field which is really named "-" is spelled "-,": a bare "-" means omitted.
+		tag = "-,"
 	}
 	return tag
 }
